@@ -309,6 +309,7 @@ __all__ = [
     'is_remote_exception',
 ]
 
+import copy
 import multiprocessing
 import traceback
 from types import TracebackType
@@ -374,6 +375,12 @@ class RemoteTraceback(Exception):
 
 
 def _rebuild_exception(exc: BaseException, tb: str):
+    if isinstance(exc.__cause__, RemoteTraceback) and exc.__cause__.tb != tb:
+        # One pickle payload can hold several `RemoteException`s around the *same* exception
+        # object with different traceback texts (e.g. two members of an ensemble raised one
+        # shared exception instance). Pickle's memo then hands every one of them the object
+        # that an earlier call has already labelled; do not overwrite that label, label a copy.
+        exc = copy.copy(exc)
     exc.__cause__ = RemoteTraceback(tb)
 
     return exc
